@@ -84,7 +84,10 @@ func c01One(v *spec.V) (msg, stage string) {
 	}
 	if v.Depth() >= 2 {
 		// the same content as an acyclic GRAPH: equal subtrees are one shared container
-		return c01OneBuilt(v, v.BuildShared(), "shared-subtrees/")
+		if m, st := c01OneBuilt(v, v.BuildShared(), "shared-subtrees/"); m != "" {
+			return m, st
+		}
+		return afterNestedEdits(v, c01Pass)
 	}
 	return "", ""
 }
@@ -106,6 +109,13 @@ func c01Pass(v *spec.V, c interface{}) (msg, stage string) {
 	if p, val := try(func() { s = rootString(c) }); p {
 		return fmt.Sprintf("String() panicked on %s: %v", v, val), "string-panic"
 	}
+	returned := s
+	s = strings.Clone(returned)
+	defer func() {
+		if msg == "" && returned != s {
+			msg, stage = fmt.Sprintf("the string returned by String() on %s changed after later library calls: was %+q, now %+q", v, s, strings.Clone(returned)), "result-not-stable"
+		}
+	}()
 	var parsed interface{}
 	var err error
 	if p, val := try(func() { parsed, err = parseRoot(v, s) }); p {
@@ -188,7 +198,7 @@ func c02One(v *spec.V) (msg, stage string) {
 			return "container re-parsed from its own String(): " + m, "reparsed/" + st
 		}
 	}
-	return "", ""
+	return afterNestedEdits(v, c02Pass)
 }
 
 func c02Pass(v *spec.V, c interface{}) (msg, stage string) {
@@ -385,9 +395,18 @@ func c16One(v *spec.V, n int) (msg, stage string) {
 			if m, st := c16Pass(v, v.BuildShared(), n); m != "" {
 				return "equal subtrees built as one shared container: " + m, "shared-subtrees/" + st
 			}
+			if n == 2 {
+				return afterNestedEdits(v, func(v2 *spec.V, c2 interface{}) (string, string) { return c16Pass(v2, c2, n) })
+			}
 		}
 	}
 	return "", ""
+}
+
+// c16Disturb makes two further FormatString calls on unrelated fresh small containers.
+func c16Disturb(n int) {
+	_ = at.NewList("disturb", 1).FormatString(n)
+	_ = at.NewObject("d", at.NewList(true)).FormatString(n)
 }
 
 func c16Pass(v *spec.V, c interface{}, n int) (msg, stage string) {
@@ -405,6 +424,23 @@ func c16Pass(v *spec.V, c interface{}, n int) (msg, stage string) {
 	if p {
 		return fmt.Sprintf("FormatString(%d) on %s panicked", n, v), "panic"
 	}
+	// a Go string is a value: what FormatString returned must not change when the library is called again
+	// (seeded change C16-10a: the result aliases a pooled buffer that the next call overwrites). Everything
+	// below judges a private copy taken at once; the returned string itself is compared with it at the end,
+	// after further FormatString calls on two other containers.
+	returned := out
+	out = strings.Clone(returned)
+	defer func() {
+		if msg != "" {
+			return
+		}
+		if n == 0 || n == 2 {
+			try(func() { c16Disturb(n) })
+		}
+		if returned != out {
+			msg, stage = fmt.Sprintf("the string returned by FormatString(%d) on %s changed after later FormatString calls: was %+q, now %+q", n, v, out, strings.Clone(returned)), "result-not-stable"
+		}
+	}()
 	if out == "" {
 		return fmt.Sprintf("FormatString(%d) on %s returned the empty string (String() = %+q)", n, v, rootString(c)), "empty"
 	}
